@@ -490,13 +490,17 @@ func (r *patchRunner) Apply(filename string, f *ast.File) (fout *ast.File, comme
 				continue
 			}
 
-			matched = true
-			comments = c.Comments
-
 			cl := engine.NewChangelog()
 
-			var err error
-			fout, err = c.Replace(d, cl)
+			out, err := c.Replace(d, cl)
+			if errors.Is(err, engine.ErrUnchanged) {
+				// Nothing could be rewritten: the same as no match.
+				continue
+			}
+
+			matched = true
+			comments = c.Comments
+			fout = out
 			if err != nil {
 				r.errors = append(r.errors, fmt.Errorf("could not update %q: %v", filename, err))
 				return nil, comments, false
